@@ -120,40 +120,49 @@ def _slot_writes(cfg):
 
 
 def s3(ctx, rep):
+    """a rung is left behind exactly when it is complete - all positions handed out and none pending - and only then is the next one
+    built; stated on the conditions that dominate the actions (a flag variable, nested tests or guard clauses are the same thing)"""
+    from .common import dom_guard
     P = ctx.P
     f = P.method("SynchronousBracket", "on_result")
-    icv = vars_assigned_from(f, lambda v: "num_pending_slots()" in U(v))
-    icv = icv[0] if icv else "?"
-    ic = [d for d in local_defs(f, icv) if not isinstance(d, tuple)]
-    ok = len(ic) == 1
-    if ok:
-        at = atoms_of(ic[0], True)
-        ok = any(a[0] == "le" and a[1].startswith("len(") and a[2] == "self._first_free_pos" for a in at) and \
-            ("eq", "0", "self.num_pending_slots()", True) in at
-    rep.put(ok, "S3", "agreement", "SynchronousBracket.on_result: rung complete == all positions handed out and none pending", f, ic[0] if ic else None, "",
-            "a rung is declared complete while results are still outstanding: trials are promoted before the whole rung has reported")
     cfg = cfg_of(f)
+    adv = [n.id for n in cfg.nodes if n.kind == "stmt" and isinstance(n.ast, ast.AugAssign) and isinstance(n.ast.op, ast.Add)
+           and U(n.ast.target) == "self.current_rung" and U(n.ast.value) == "1"]
+    adv += [n.id for n in cfg.nodes if n.kind == "stmt" and isinstance(n.ast, ast.Assign) and U(n.ast.targets[0]) == "self.current_rung"
+            and U(n.ast.value).replace(" ", "") in ("self.current_rung+1", "1+self.current_rung")]
+    rst = [n.id for n in cfg.nodes if n.kind == "stmt" and isinstance(n.ast, ast.Assign) and U(n.ast.targets[0]) == "self._first_free_pos"
+           and U(n.ast.value) == "0"]
     pr = ctx.nodes(f, ctx.sel_call(selfcall="_promote_trials_at_rung_complete"), "may", 0)
-    ok = bool(pr) and all(ctx.has_fact(f, n, lambda a: a[0] == "truth" and a[1] == icv and a[2] is True) for n in pr)
-    rep.put(ok, "S3", "guarded_by", "SynchronousBracket.on_result: promotion only when the rung is complete", f, None, "")
-    # the completeness test is evaluated after the slot was written
+    if not adv or not pr:
+        raise AnchorError("SynchronousBracket.on_result: advance of the rung index / promotion call not found")
+
+    def complete(at):
+        handed_out = any(a[0] == "le" and a[1].startswith("len(") and a[2] == "self._first_free_pos" for a in at)
+        none_pending = any(a[0] == "eq" and a[3] is True and {a[1], a[2]} == {"0", "self.num_pending_slots()"} for a in at) or \
+            any(a[0] == "le" and a[1] == "self.num_pending_slots()" and a[2] == "0" for a in at) or \
+            any(a[0] == "truth" and a[1] == "self.num_pending_slots()" and a[2] is False for a in at)
+        return handed_out, none_pending
+    for what, nodes_ in (("the rung index advances", adv), ("the next rung is built", list(pr))):
+        miss = set()
+        for n_ in nodes_:
+            h, p_ = complete(set(dom_guard(ctx, f, n_)) | set(ctx.facts(f).at(n_)))
+            if not h:
+                miss.add("all positions handed out")
+            if not p_:
+                miss.add("no slot pending")
+        rep.put(not miss, "S3", "guarded_by", f"SynchronousBracket.on_result: {what} | the rung is complete (all positions handed out, none pending)", f,
+                cfg.nodes[nodes_[0]].ast, "", f"not under `{' and '.join(sorted(miss))}`: a rung is declared complete while results are still outstanding - trials are "
+                "promoted before the whole rung has reported")
+    # the completeness is judged after the slot was written
     wr = [n.id for n in _slot_writes(cfg)]
-    icn = [n.id for n in cfg.nodes if n.kind == "stmt" and isinstance(n.ast, ast.Assign) and U(n.ast.targets[0]) == icv]
-    ok = bool(wr) and bool(icn) and cfg.path(cfg.entry, icn[0], deleted=set(wr)) is None
-    rep.put(ok, "S3", "must_precede", "SynchronousBracket.on_result: slot written ≺ completeness test", f, None, "")
-    # a complete rung is left behind: the rung index advances by exactly one and the hand-out position starts at 0 again, on every
-    # path on which the rung was found complete and before the next rung is built
-    adv = {n.id for n in cfg.nodes if n.kind == "stmt" and isinstance(n.ast, ast.AugAssign) and isinstance(n.ast.op, ast.Add)
-           and U(n.ast.target) == "self.current_rung" and U(n.ast.value) == "1"}
-    rst = {n.id for n in cfg.nodes if n.kind == "stmt" and isinstance(n.ast, ast.Assign) and U(n.ast.targets[0]) == "self._first_free_pos"
-           and U(n.ast.value) == "0"}
-    starts = [s_ for n in cfg.nodes for s_, l in cfg.succ[n.id] if isinstance(l, tuple) and l[0] == "cond" and
-              any(a[0] == "truth" and a[1] == icv and a[2] is True for a in atoms_of(l[1], l[2]))]
-    for what, nodes_, why in (("the rung index advances by one", adv, "the bracket stays on the completed rung: its next result is refused, or the rung is promoted again"),
-                              ("the hand-out position is reset to 0", rst, "no slot of the next rung is ever handed out (or the rung counts as complete at once)")):
-        ok = bool(nodes_) and bool(starts) and cfg.path(starts, cfg.exit, deleted=nodes_, skip_labels=("exc",)) is None and \
-            all(cfg.path(starts, n_, deleted=nodes_, skip_labels=("exc",)) is None for n_ in pr) and \
-            all(ctx.has_fact(f, n_, lambda a: a[0] == "truth" and a[1] == icv and a[2] is True) for n_ in nodes_)
+    ok = bool(wr) and all(cfg.path(cfg.entry, a_, deleted=set(wr)) is None for a_ in adv)
+    rep.put(ok, "S3", "must_precede", "SynchronousBracket.on_result: slot written ≺ the rung is left behind", f, None, "")
+    # a complete rung is left behind: index + 1 and hand-out position 0, both before the next rung is built, on every path that does either
+    for what, nodes_, others, why in (("the rung index advances by one", set(adv), set(rst), "the bracket stays on the completed rung: its next result is refused, or the rung is promoted again"),
+                                      ("the hand-out position is reset to 0", set(rst), set(adv), "no slot of the next rung is ever handed out (or the rung counts as complete at once)")):
+        ok = bool(nodes_) and all(cfg.path(cfg.entry, p_, deleted=nodes_, skip_labels=("exc",)) is None for p_ in pr) and \
+            all(cfg.path(cfg.entry, o_, deleted=nodes_, skip_labels=("exc",)) is None or
+                cfg.path([s_ for s_, l in cfg.succ[o_]], cfg.exit, deleted=nodes_, skip_labels=("exc",)) is None for o_ in others)
         rep.put(ok, "S3", "must_follow", f"SynchronousBracket.on_result: when the rung is complete, {what} (before the next rung is built)", f, None, "", why)
     others = [(m_, x) for c_ in ctx.family("SynchronousBracket") for m_ in c_.methods.values() if m_.name not in ("__init__", "on_result")
               for x in walk_shallow(m_.node) if isinstance(x, (ast.Assign, ast.AugAssign))
